@@ -485,6 +485,27 @@ func c02Limits(a *ChildArgs) {
 			c02CheckStack(a, "tokens/"+sh.name, wit)
 		}
 	}
+	// comments are not tokens: they must not count against the token limit
+	for _, cs := range []struct {
+		name   string
+		tokens int
+		f      func(n int) string
+	}{
+		{"idents-each-with-block-comment", mt - 2, func(n int) string { return strings.Repeat("a/**/", n) }},
+		{"idents-each-with-line-comment", mt/2 + 10, func(n int) string { return strings.Repeat("a --\n", n) }},
+		{"one-comment-then-idents", mt - 2, func(n int) string { return "/* c */" + strings.Repeat("a ", n) }},
+		{"idents-then-comments", mt - 50, func(n int) string { return strings.Repeat("a ", n) + strings.Repeat("/**/", 100) }},
+	} {
+		s := cs.f(cs.tokens)
+		a.Rec.Count("evaluations", 1)
+		a.Rec.Distinct("cases", "tokens-with-comments/"+cs.name)
+		tk := mustTokenizer()
+		toks, err := tk.Tokenize([]byte(s))
+		if c := code(err); c == "E1007" {
+			a.Rec.Viol("C02/tokens/"+cs.name+"/under-limit-rejected", "input within the token limit is not rejected for that reason",
+				fmt.Sprintf("%d tokens and %d bytes written (limit %d tokens) rejected with E1007: comments counted as tokens?", cs.tokens, len(s), mt), map[string]interface{}{"shape": cs.name, "tokens_written": cs.tokens, "tokens_returned": len(toks)})
+		}
+	}
 	a.Rec.Sample("limits", 1, map[string]interface{}{"MaxInputSize": max, "MaxTokens": mt})
 }
 
